@@ -198,12 +198,15 @@ type outcome struct {
 	mainDone  bool
 	closeErr  error
 	gotReturn map[int]bool
+	probeAt   int   // wire length when the peer started re-using question ids (-1: never)
+	probed    []int // question ids re-used by a fresh Bootstrap, in order
 }
 
 func callID(q int) int { return 100 + q }
 
 func runScript(sc script, out *outcome) {
 	out.closeAt = -1
+	out.probeAt = -1
 	s := rpcsim.New(rpcsim.FaultPlan{}, true)
 	out.sim = s
 	out.gotReturn = map[int]bool{}
@@ -267,12 +270,54 @@ func runScript(sc script, out *outcome) {
 				p.Finish(uint32(q), false)
 			}
 		}
+		// Every question has been answered and finished, so its id is free
+		// again: the peer re-uses the id of every question it finished by a
+		// script step (the Finish may have raced with the Return) for a
+		// fresh Bootstrap, which must be answered like any other.
+		allOK := true
+		for q := range sc.qs {
+			if !out.gotReturn[q] {
+				allOK = false
+			}
+		}
+		if allOK {
+			out.probeAt = len(s.T.Wire)
+			for _, st := range sc.steps {
+				if st.kind != 'F' {
+					continue
+				}
+				from := len(s.T.Wire)
+				out.probed = append(out.probed, st.q)
+				p.Bootstrap(uint32(st.q))
+				vsched.WaitUntil(fmt.Sprintf("probe-return%d", st.q), func() bool {
+					return s.T.Closed || returnAfter(s, from, uint32(st.q))
+				})
+				if !returnAfter(s, from, uint32(st.q)) {
+					break
+				}
+				p.Finish(uint32(st.q), true)
+			}
+		}
 		peerDone = true
 	})
 	vsched.WaitUntil("peer done", func() bool { return peerDone && keeperDone })
 	out.closeAt = len(s.T.Wire)
 	out.closeErr = s.Conn.Close()
 	out.mainDone = true
+}
+
+// returnAfter reports whether a Return for answer id q was sent at wire
+// position >= from.
+func returnAfter(s *rpcsim.Sim, from int, q uint32) bool {
+	for i := from; i < len(s.T.Wire); i++ {
+		m := s.T.Wire[i]
+		if m.ToPeer && m.Msg.IsValid() && m.Msg.Which() == rpccp.Message_Which_return {
+			if r, err := m.Msg.Return(); err == nil && r.AnswerId() == q {
+				return true
+			}
+		}
+	}
+	return false
 }
 
 func wireOf(out *outcome) string {
@@ -321,15 +366,33 @@ func judgeScript(sc script, out *outcome, vr *vsched.Result) (string, string) {
 	// Abort on well-formed traffic is a violation
 	rets := map[uint32]*retInfo{}
 	finishPos := map[int]int{}
+	probeRets := map[uint32]int{}
 	for i, m := range out.sim.T.Wire {
 		if !m.Msg.IsValid() {
 			continue
 		}
+		inProbe := out.probeAt >= 0 && i >= out.probeAt
 		if !m.ToPeer {
-			if m.Msg.Which() == rpccp.Message_Which_finish {
+			if m.Msg.Which() == rpccp.Message_Which_finish && !inProbe {
 				f, _ := m.Msg.Finish()
 				finishPos[int(f.QuestionId())] = i
 			}
+			continue
+		}
+		if inProbe && m.Msg.Which() == rpccp.Message_Which_return {
+			r, _ := m.Msg.Return()
+			ok := false
+			if r.Which() == rpccp.Return_Which_results {
+				if pl, err := r.Results(); err == nil {
+					if l, err := pl.CapTable(); err == nil && l.Len() == 1 {
+						ok = true
+					}
+				}
+			}
+			if !ok {
+				return "reused-id/bootstrap-return", fmt.Sprintf("Bootstrap re-using the finished question id %d was not answered with the bootstrap capability\nwire: %s", r.AnswerId(), wire)
+			}
+			probeRets[r.AnswerId()]++
 			continue
 		}
 		switch m.Msg.Which() {
@@ -366,6 +429,24 @@ func judgeScript(sc script, out *outcome, vr *vsched.Result) (string, string) {
 			}
 		case rpccp.Message_Which_unimplemented:
 			return "unimplemented-on-valid-traffic", "the Conn answered Unimplemented to well-formed traffic\nwire: " + wire
+		}
+	}
+	if out.probeAt >= 0 {
+		for _, q := range out.probed {
+			if probeRets[uint32(q)] != 1 {
+				return "reused-id/return-count", fmt.Sprintf("the peer re-used question id %d (answered and finished before) for a Bootstrap and got %d Returns for it\nwire: %s\nreported: %s", q, probeRets[uint32(q)], wire, strings.Join(W.Reported, " | "))
+			}
+		}
+		for a, n := range probeRets {
+			found := false
+			for _, q := range out.probed {
+				if uint32(q) == a {
+					found = true
+				}
+			}
+			if !found {
+				return "return-unasked", fmt.Sprintf("%d Return(s) for answer id %d after every question had been answered\nwire: %s", n, a, wire)
+			}
 		}
 	}
 	for a, ri := range rets {
